@@ -108,7 +108,8 @@ structure Comp where
   sigs : List (String × String) := []
   mports : List (String × String) := []
   blks : List Blk := []
-  uu : List (String × String) := []
+  /-- `U(x) < U(y)`: own blocks (`([], "b")`) or blocks of descendants (`s.c.get_update_block("b")` = `(["c"], "b")`) -/
+  uu : List (Ref × Ref) := []
   rdu : List (Ref × Bool × String) := []
   wru : List (Ref × Bool × String) := []
   mcs : List (LMRef × LMRef × Bool) := []
@@ -141,7 +142,7 @@ def contrib (q : Name) (c : Comp) : List Entry :=
   ++ c.sigs.map (fun x => Entry.sig (q, x.1) x.2)
   ++ c.mports.map (fun x => Entry.mport (q, x.1) x.2)
   ++ c.blks.flatMap (blkEntries q)
-  ++ c.uu.map (fun x => Entry.uu q (q, x.1) (q, x.2))
+  ++ c.uu.map (fun x => Entry.uu q (absr q x.1) (absr q x.2))
   ++ c.rdu.map (fun x => Entry.rdu q (absr q x.1) x.2.1 (q, x.2.2))
   ++ c.wru.map (fun x => Entry.wru q (absr q x.1) x.2.1 (q, x.2.2))
   ++ c.mcs.map (fun x => Entry.mc q (absm q x.1) (absm q x.2.1) x.2.2)
